@@ -499,6 +499,7 @@ def make_event(eid, text, optic, exc):
 # ------------------------------------------------------ random texts (seeded) ----
 GLASS_POOL = ["N-SF11", "N-SK16", "L-BAL35", "N-LAK9", "F2", "SF6", "QQGLASS1", "___BLANK", "XK7M"]
 NOISE_POOL = ["UNIT MM X W X CM MR CPMM", "VERS 171115", "COMM STOP", "", "  DIAM 6.75 1 0 0 1 \"\"",
+              "NOTE 0 Objectif \u00e0 4 \u00e9l\u00e9ments, \u03bb = 0.55 \u00b5m",
               "  MEMA 7.5 1 0 0 1 \"\"", "NAME MODE NSC", "ENVD 20 1 0", "  FIMP "]
 
 
